@@ -68,6 +68,15 @@ FAILS = [
     ("insert_inside_char", ["{u}s = \"añob\""], "{u}e = {u}s.insert(\"x\", 2)"),
     ("delete_inside_char", ["{u}s = \"añob\""], "{u}e = {u}s.delete(0, 2)"),
     ("remove_range", ["{u}lq: [int...] = [1, 2]"], "{u}e = {u}lq.remove(5)"),
+    # round 9: the first offset past the valid range of every range-checked built-in (an inclusive / exclusive slip
+    # shows at exactly that value)
+    ("remove_at_len", ["{u}lq: [int...] = [1, 2, 3]", "{u}k = 3"], "{u}e = {u}lq.remove({u}k)"),
+    ("remove_from_empty", ["{u}lq: [int...] = [1]", "{u}d = {u}lq.remove(0)"], "{u}e = {u}lq.remove(0)"),
+    ("substring_end_len_plus_1", ["{u}s = \"ab\""], "{u}e = {u}s.substring(0, 3)"),
+    ("substring_start_after_end", ["{u}s = \"abcd\""], "{u}e = {u}s.substring(3, 1)"),
+    ("insert_at_len_plus_1", ["{u}s = \"ab\""], "{u}e = {u}s.insert(\"x\", 3)"),
+    ("delete_end_len_plus_1", ["{u}s = \"ab\""], "{u}e = {u}s.delete(0, 3)"),
+    ("str_index_at_len", ["{u}s = \"ab\"", "{u}k = 2"], "{u}e = {u}s[{u}k]"),
     ("pow_negative_exponent", ["{u}m = 2", "{u}o = -1"], "{u}e = {u}m.pow({u}o)"),
     ("pow_overflow", ["{u}m = B2", "{u}o = 200"], "{u}e = {u}m.pow({u}o)"),
     ("radix_invalid", ["{u}s = \"10\""], "{u}e = {u}s.parse_int_radix(99)"),
